@@ -1,4 +1,5 @@
-(* C03: the two levels composed. For a file whose backslashes all start legal escapes:
+(* C03: the two levels composed. For every file (bytes_iff; the lexer as repaired, fx_escape = true - before the
+   repair only for a file whose backslashes all start legal escapes, bytes_iff_guarded):
    no syntax diagnostic  <->  the bytes split into a lexically valid token sequence (Spec/LuaLex.v) and that
    sequence is a Chunk (Spec/LuaGrammar.v). *)
 From Coq Require Import List NArith ZArith Bool Arith Lia.
@@ -48,7 +49,22 @@ Section Compose.
       rewrite (parser_view_clean _ HL). split; assumption.
   Qed.
 
-  (* the completeness half needs no guard: valid text is never flagged *)
+  (* the deployed (repaired) code needs no guard: no syntax diagnostic <-> valid bytes *)
+  Theorem bytes_iff bs ts r :
+    lex_all gbk_runes bs = Ok ts -> parse_bytes gbk_runes classify bs = Ok r ->
+    (flagged r = false <-> ValidBytes bs ts).
+  Proof.
+    intros E H. rewrite (flagged_iff classify gbk_runes bs ts r E H). split.
+    - intros [HC HL]. pose proof (parser_view_errs _ HL) as HL'. rewrite (parser_view_clean _ HL') in HC.
+      destruct (lex_all_sound_fixed gbk_runes bs ts E HL') as (body & eof & sts & -> & Hk & HX & HF).
+      exists body, eof, sts. repeat split; assumption.
+    - intros (body & eof & sts & -> & Hk & HX & HF & HC).
+      destruct (lex_all_complete gbk_runes bs sts HX) as (body' & eof' & E' & _ & _ & HL).
+      rewrite E in E'. injection E' as E'. rewrite <- E' in HL.
+      rewrite (parser_view_clean _ HL). split; assumption.
+  Qed.
+
+  (* the completeness half: valid text is never flagged *)
   Theorem bytes_complete bs ts r :
     lex_all gbk_runes bs = Ok ts -> parse_bytes gbk_runes classify bs = Ok r ->
     ValidBytes bs ts -> flagged r = false.
